@@ -12,6 +12,7 @@ NOTE_HEVAL = ('Trusted: rustc MIR dump as semantics; hand-written std/petgraph m
               '(H[j] present <=> H[j!!!] present, shown inductive); a counterexample counts only after it reproduces natively.')
 
 CLAIMED = {
+    'C19': ('H-SIZE', 'The engine\'s real MIR is executed at concrete large sizes (600 jobs quick, 4000 thorough; chain, layered, fan-out/fan-in; periodic kind patterns) through every named cascade shape: first build, up-to-date re-evaluation, single invalidation at either end (symbolic presence of the first/last result and symbolic new values, so z3 decides which cascades exist), root failure, abort. Every monitor of the single-evaluation harness runs at every step (no internal error incl. the depth guard, progress, report consistency, and the up-to-date / only-necessary-work oracles as z3 validity queries per job). Honest limit: the solver decides only a handful of atoms per run; what decides is executing the real code where an internal limit would bite.', '7.19'),
     'C01': ('H-IND', 'One inductive step of clean-build equivalence: job behaviours are uninterpreted functions of the consumed contents, the starting history and result files are arbitrary subject to the invariant Sound (a record is what its recorded inputs produce; an existing result of a job with a record has the recorded content); z3 decides on every completed path of one symbolic evaluation (all schedules, failure subsets, abort points) that Sound holds again for the returned history and the files, and on every failure-free path that each Output job\'s result equals the clean-build term. The step composes to chains of any length with arbitrary edits in between. A broken invariant is followed up by a second symbolic evaluation and reported only if that ends failure-free with a wrong result.', '5.4, 7.1'),
     'C02': ('H-EVAL', 'At every quiescent state of every explored path, each newly offered job is checked against the world model: upstream states, results present (solver-decided over the symbolic present-set), ephemeral upstreams executed and not yet offered for cleanup, get_job_output Done.', '7.2'),
     'C03': ('H-EVAL', 'For every completed path and every skipped non-exempt job the validity query `path condition => uptodate(job)` over symbolic records is discharged by z3 (all comparison relations at once under S-rel).', '7.3'),
